@@ -310,6 +310,24 @@ def gen_value(rng, tname, algos, mode):
     return {'s': rng.choice(ODD_STRINGS)}
 
 
+def gen_admissible(rng, e, algos):
+    """a value of the declared kind that passes the checks of the entry"""
+    t, ch = e['type'], e['checks']
+    if t == 'bool':
+        return {'b': rng.random() < 0.5}
+    if t == 'str':
+        return {'s': rng.choice(algos)} if 'check_algo_name' in ch else {'s': rng.choice(ODD_STRINGS)}
+    if t == 'int':
+        pool = [x for x in INTS + [rng.randint(0, 10**6)] if (x > 0 or 'is_positive' not in ch) and (x >= 0 or 'is_non_negative' not in ch)]
+        return {'i': rng.choice(pool)}
+    pool = [x for x in FLOATS + [rng.uniform(0, 1), rng.uniform(0, 1) * 10 ** rng.randint(-12, 12)]
+            if (x > 0 or 'is_positive' not in ch) and (0 <= x <= 1 or 'zero_one' not in ch)]
+    x = rng.choice(pool)
+    if rng.random() < 0.1 and 'zero_one' not in ch:
+        return {'i': rng.choice([1, 3, 10**20])}
+    return {'f': f2b(x)}
+
+
 def gen_param_case(rng, algos, entries):
     n = rng.choice([1, 1, 2, 3, 4, 6, 8])
     if rng.random() < 0.08:
@@ -319,8 +337,8 @@ def gen_param_case(rng, algos, entries):
     rng.shuffle(pool)
     for k in range(n):
         e = pool[k % len(pool)]
-        mode = 'typed' if rng.random() < 0.8 else 'cross'
-        v = gen_value(rng, e['type'], algos, mode)
+        r = rng.random()
+        v = gen_admissible(rng, e, algos) if r < 0.6 else gen_value(rng, e['type'], algos, 'typed' if r < 0.85 else 'cross')
         assigns.append({'sec': e['sec'] if rng.random() < 0.5 else None, 'name': e['name'], 'value': v})
     return {'kind': 'params', 'assigns': assigns}
 
@@ -440,15 +458,18 @@ def check_param_case(ctx, res, case, table):
             res.diverge('parameter values after the set_value calls', case, _diff(mstate, real['before']), '')
         if 'doc' in real and canon_doc(ans.get('doc', [])) != canon_doc(real['doc']):
             res.diverge('content of the dumped file (parsed by tomllib) vs Params.generateDocument', case, canon_doc(ans.get('doc', []))[:2], canon_doc(real['doc'])[:2])
-        mread = ans.get('read', {})
-        if 'ok' in mread:
-            mafter = {f'{e["sec"]}/{e["name"]}': e['value'] for e in mread['ok']}
+
+    def cb_read(ans):
+        # the document is read in file order (the section order of the real file comes from a Python set)
+        if 'ok' in ans:
+            mafter = {f'{e["sec"]}/{e["name"]}': e['value'] for e in ans['ok']}
             if real.get('read') != 'ok' or mafter != real.get('after'):
                 res.diverge('values after read_file', case, _diff(mafter, real.get('after', {})), real.get('read'))
-        else:
-            if real.get('read') != mread.get('err'):
-                res.diverge('outcome of read_file', case, mread, real.get('read'))
+        elif real.get('read') != ans.get('err'):
+            res.diverge('outcome of read_file', case, ans, real.get('read'))
 
+    if 'doc' in real:
+        ctx.batch.add({'op': 'import_document', 'algos': algos, 'params': entries, 'doc': real['doc']}, cb_read)
     ctx.batch.add(req, cb)
 
 
@@ -496,12 +517,13 @@ def gen_file_case(rng, algos, entries):
     names = list(secs)
     rng.shuffle(names)
     doc = []
+    clean = rng.random() < 0.6   # a file a user could have written: every value valid
     for s in names[: rng.randint(1, len(names))]:
         es = []
         pool = list(secs[s])
         rng.shuffle(pool)
         for e in pool[: rng.randint(1, len(pool))]:
-            r = rng.random()
+            r = rng.random() * (0.7 if clean else 1.0)
             if e['type'] == 'bool':
                 if r < 0.75:
                     v = {'s': rng.choice(BOOL_SPELLINGS)}
@@ -512,7 +534,7 @@ def gen_file_case(rng, algos, entries):
                 else:
                     v = {'i': rng.choice([0, 1])}
             else:
-                v = gen_value(rng, e['type'], algos, 'typed' if r < 0.85 else 'cross')
+                v = gen_admissible(rng, e, algos) if r < 0.8 else gen_value(rng, e['type'], algos, 'typed' if r < 0.9 else 'cross')
                 if 's' in v and any(ord(c) < 32 for c in v['s']):
                     v = {'s': 'plain'}
             es.append({'name': e['name'], 'value': v})
@@ -643,7 +665,7 @@ def gen_results_spec(rng, tag, safe=True):
     Bm = np.array([[rng.randint(-8, 8) / 4.0 for _ in range(k)] for _ in range(k + 1)])
     bhhh = Bm.T @ Bm
     boot = None
-    if rng.random() < 0.3:
+    if rng.random() < 0.3 and k >= 2:  # (K = 1 with bootstrap: np.cov returns a 0-d array and _calculate_stats raises — C08's domain)
         R = rng.choice([2, 5, 10])
         boot = [[values[j] + rng.randint(-8, 8) / 16.0 for j in range(k)] for _ in range(R)]
     ll = -rng.randint(10, 4000) / 8.0
@@ -831,7 +853,8 @@ def value_agrees(text, x, digits):
         return x == y
     if x == 0:
         return y == 0
-    return abs(y - x) <= 0.5000001 * 10.0 ** (1 - digits) * abs(x) * (10 if False else 1) or f'{x:.{digits}g}' == f'{y:.{digits}g}'
+    # rounding to `digits` significant digits moves a number by at most half a unit of the last digit kept
+    return abs(y - x) <= 0.5000001 * 10.0 ** (1 - digits) * abs(x)
 
 
 def parse_reports(snap, names, values):
@@ -988,7 +1011,7 @@ def results_case_estimation(ctx, res, case):
         if case.get('quick'):
             r = B.quick_estimate()
         else:
-            r = B.estimate(run_bootstrap=bool(case.get('bootstrap')))
+            r = B.estimate(run_bootstrap=bool(case.get('bootstrap')) and len(case['names']) >= 2)
         names = list(r.data.betaNames)
         values = [float(v) for v in r.data.betaValues]
         res.count(case, nontrivial=True)
@@ -1026,12 +1049,12 @@ WRITERS = {'html': 'html', 'tex': 'tex', 'f12': 'F12', 'pickle': 'pickle'}
 def gen_history(rng, long=False):
     models = rng.sample(MODEL_NAMES, rng.randint(1, 3))
     pre = rng.sample(DECOYS, rng.randint(0, 8))
-    n = rng.randint(1, 30) if not long else rng.randint(95, 120)
+    n = rng.randint(1, 30) if not long else rng.randint(106, 125)
     ops = []
     focus = (rng.choice(models), rng.choice(list(WRITERS)))
     for _ in range(n):
         r = rng.random()
-        if long and r < 0.9:
+        if long and r < 0.96:
             ops.append(['write', focus[1], focus[0]])
         elif r < 0.62:
             ops.append(['write', rng.choice(list(WRITERS)), rng.choice(models)])
@@ -1040,7 +1063,7 @@ def gen_history(rng, long=False):
         elif r < 0.84:
             ops.append(['delete', rng.randint(0, 10**6)])
         elif r < 0.94:
-            ops.append(['backup', rng.randint(0, 10**6), rng.random() < 0.5])
+            ops.append(['backup', rng.choice([0, 0, 1, 2, rng.randint(0, 10**6)]), rng.random() < 0.35])
         else:
             ops.append(['backup_missing', rng.choice(['nothing.txt', 'm~77.html']), rng.random() < 0.5])
     return {'kind': 'history', 'pre': pre, 'ops': ops}
@@ -1386,29 +1409,29 @@ def check(ctx) -> Result:
         run_case(ctx, res, c, table)
         res.tally('corpus')
     check_missing_file(ctx, res)
-    for _ in range(ctx.n(90, 2500)):
+    for _ in range(ctx.n(250, 4000)):
         run_case(ctx, res, gen_param_case(rng, *table), table)
-    for _ in range(ctx.n(40, 1200)):
+    for _ in range(ctx.n(120, 2000)):
         run_case(ctx, res, gen_file_case(rng, *table), table)
-    for i in range(ctx.n(40, 900)):
+    for i in range(ctx.n(120, 1500)):
         run_case(ctx, res, gen_results_spec(rng, rng.choice(['r', 'res ults', 'r~00', 'β'])), table)
-    for i in range(ctx.n(4, 40)):
+    for i in range(ctx.n(8, 60)):
         names = rng.sample(NAME_POOL, rng.randint(1, 3))
         run_case(ctx, res, {'kind': 'estimation', 'model': rng.choice(['em', 'e m', 'e.m']), 'names': names, 'rows': rng.randint(8, 40), 'seed': rng.randint(1, 10**6),
                             'null': rng.random() < 0.5, 'bootstrap': rng.random() < 0.4, 'html': rng.random() < 0.7, 'pickle': rng.random() < 0.7,
                             'bounds': rng.choice([None, None, [0.0, 1.0], [-0.001, 0.001]])}, table)
-    for i in range(ctx.n(30, 500)):
+    for i in range(ctx.n(80, 900)):
         run_case(ctx, res, gen_history(rng), table)
-    for i in range(ctx.n(3, 40)):
+    for i in range(ctx.n(4, 40)):
         run_case(ctx, res, gen_history(rng, long=True), table)
-    for i in range(ctx.n(4, 30)):
+    for i in range(ctx.n(5, 30)):
         n = rng.choice([1, 2, 3, 11, 50, 100, 101]) if i else 101
         run_case(ctx, res, {'kind': 'recycle', 'model': rng.choice(['m', 'mod', 'a.b', 'x y']), 'n': n,
                             'other_files': rng.sample(['other.pickle', 'm_validation.pickle', 'zzz.pickle', 'm.pickle.bak'], rng.randint(0, 2))}, table)
-    for i in range(ctx.n(1, 6)):
+    for i in range(ctx.n(2, 8)):
         m = rng.choice(['vm', 'v m'])
         run_case(ctx, res, {'kind': 'validate', 'model': m, 'slices': rng.randint(2, 3),
-                            'pre': rng.sample([f'{m}_validation.pickle', f'{m}_val_est_1.html', f'{m}_val_est_1.pickle', f'{m}_val_est_2~00.html', f'{m}.html'], rng.randint(0, 4))}, table)
+                            'pre': rng.sample([f'{m}_validation.pickle', f'{m}_val_est_1.html', f'{m}_val_est_1.pickle', f'{m}_val_est_2~00.html', f'{m}.html'], 5 if i == 0 else rng.randint(0, 4))}, table)
     check_splitext(ctx, res, rng, ctx.n(60, 600))
     ctx.batch.flush()
     return res
